@@ -119,6 +119,69 @@ def _fnpair_job():
     return out
 
 
+def _loopwiring_job(cases):
+    """J2O_LoopWiring cases as real while_loops: nb tensors closed over by the body, nc by the cond, nv carried values,
+    every one with a shape of its own; all annotated values of the export (the Loop's pass-through results included) observed."""
+    import jax
+    import jax.numpy as jnp
+    import numpy as np
+
+    import jax2onnx
+    from harness.censusjobs import annotation_check
+
+    body_shapes = [(2, 5), (5,)]
+    cond_shapes = [(3,), (4, 1)]
+    out = []
+    for rec0 in cases:
+        c = rec0["c"]
+        nb, nc, nv, batched = c["nb"], c["nc"], c["nv"], bool(c["batched"])
+
+        def fn(x, y, *consts, _nb=nb, _nc=nc, _nv=nv):
+            bcs, ccs = consts[:_nb], consts[_nb:_nb + _nc]
+
+            def cond(st):
+                lim = jnp.float32(40.0)
+                for cc in ccs:
+                    lim = lim + jnp.sum(cc)
+                return jnp.logical_and(st[0] < 4, jnp.sum(st[1]) < lim)
+
+            def body(st):
+                acc = st[1] + 1.0
+                for bc in bcs:
+                    acc = acc + bc
+                nxt = (st[0] + 1, acc)
+                if _nv == 2:
+                    nxt = nxt + (st[2] * 2.0,)
+                return nxt
+
+            init = (jnp.int32(0), x) + ((y,) if _nv == 2 else ())
+            res = jax.lax.while_loop(cond, body, init)
+            return res[1:] if _nv == 2 else res[1]
+
+        xs = [((np.arange(10) % 7 - 3) / 2.0).reshape(2, 5).astype(np.float32), np.arange(3, dtype=np.float32) + 1.0]
+        xs += [((np.arange(int(np.prod(sh))) % 3) / 4.0).reshape(sh).astype(np.float32) for sh in body_shapes[:nb]]
+        xs += [((np.arange(int(np.prod(sh))) % 5) / 8.0).reshape(sh).astype(np.float32) for sh in cond_shapes[:nc]]
+        f = fn
+        if batched:
+            f = jax.vmap(fn, in_axes=(0, None) + (None,) * (nb + nc))
+            xs[0] = np.stack([xs[0], xs[0] * 3.0 + 1.0, -xs[0]])
+        rec = {"key": f"loopwiring::nb={nb},nc={nc},nv={nv},batched={batched}", "status": "ok"}
+        try:
+            model = jax2onnx.to_onnx(f, [jax.ShapeDtypeStruct(v.shape, v.dtype) for v in xs])
+        except Exception as ex:  # noqa: BLE001
+            rec["status"] = "export_failed"
+            rec["why"] = f"{type(ex).__name__}: {str(ex)[:120]}"
+            out.append(rec)
+            continue
+        feeds = {vi.name: v for vi, v in zip(model.graph.input, xs)}
+        a = annotation_check(model, [feeds])
+        loops = [n for n in model.graph.node if n.op_type == "Loop"]
+        rec.update({"values": a["values"], "runs": a["runs"], "problems": a["problems"], "unobserved": a["unobserved"], "events": a["events"], "unobserved_scopes": 0,
+                    "loop_results": [len(n.output) for n in loops], "predicted_results": len(rec0["runtime"]) + 1})  # + the int32 counter the harness carries next to the nv tensors
+        out.append(rec)
+    return out
+
+
 def _pattern_job(graphs):
     import onnx_ir as ir
     from jax2onnx.converter import ir_optimizations as io
@@ -164,6 +227,26 @@ def run(ctx: Ctx) -> None:
     graphs = graphs[: (500 if ctx.quick else 10**9)]
     tasks += [{"fn": "harness.checks.c08:_pattern_job", "args": {"graphs": c}, "timeout": 3000} for c in [graphs[i::6] for i in range(6)] if c]
     tasks.append({"fn": "harness.checks.c08:_fnpair_job", "args": {}, "timeout": 3000})
+    # J2O_LoopWiring: order of the Loop's pass-through results (laws + 2 deviations by TLC), cases replayed as real while_loops
+    from harness.common import parse_tlc_values, tlc_must_pass
+
+    rw = run_tlc("MC_LoopWiring", "MC_LoopWiring.cfg", timeout=600, workers=2)
+    tlc_must_pass(rw, "J2O_LoopWiring")
+    ctx.add_tlc(rw, "J2O_LoopWiring (AnnotationsMatchRuntime)")
+    if rw.violated:
+        raise MachineryError(f"J2O_LoopWiring: {rw.violated} violated")
+    cleanup_tlc(rw)
+    for dev in ("annotate_in_trace_order", "values_first"):
+        rd = run_tlc("MC_LoopWiring", f"MC_LoopWiringDev_{dev}.cfg", timeout=600, workers=2, coverage=False)
+        if rd.violated != "AnnotationsMatchRuntime":
+            raise MachineryError(f"J2O_LoopWiring deviation {dev} should violate AnnotationsMatchRuntime, got {rd.violated!r}")
+        cleanup_tlc(rd)
+    rwe = run_tlc("MC_LoopWiring", "MC_LoopWiringEmit.cfg", timeout=600, workers=1, coverage=False)
+    lw_cases = parse_tlc_values(rwe.output.splitlines())
+    cleanup_tlc(rwe)
+    if len(lw_cases) < 30:
+        raise MachineryError("J2O_LoopWiring emitted too few cases")
+    tasks += [{"fn": "harness.checks.c08:_loopwiring_job", "args": {"cases": lw_cases[i::3]}, "timeout": 3000} for i in range(3)]
     res = run_tasks(tasks, nworkers=14, timeout=3000)
     events: list[dict[str, Any]] = []
     tid = 0
@@ -176,7 +259,13 @@ def run(ctx: Ctx) -> None:
         is_pattern = "graphs" in task["args"]
         for rec in out["result"]:
             if rec["status"] != "ok":
+                if str(rec.get("key", "")).startswith("loopwiring::"):
+                    ctx.extra.setdefault("loopwiring_refused_loudly", []).append({rec["key"]: rec.get("why")})
                 continue
+            if str(rec.get("key", "")).startswith("loopwiring::"):
+                ctx.extra["loopwiring_exports"] = ctx.extra.get("loopwiring_exports", 0) + 1
+                if rec.get("loop_results") and rec["predicted_results"] not in rec["loop_results"]:
+                    ctx.extra.setdefault("loopwiring_shape_drift", []).append({rec["key"]: [rec["loop_results"], rec["predicted_results"]]})
             nexports += 1
             nvalues += rec.get("values", 0)
             unobs += rec.get("unobserved_scopes", 0) or 0
